@@ -440,3 +440,1104 @@ def tie_eppiston_run(rng, deep):
         if len(st['samples']) < 2:
             st['samples'].append(dict(model='EPPistonRun', params=p, x=x, t=t, outcome=mtag))
     return st
+
+
+# ==========================================================================
+# oracles on the real code
+# ==========================================================================
+TOL = 1e-9
+
+
+def _fail(site, detail):
+    return dict(site=site, detail=detail)
+
+
+def _call(clspath, params, pts, t):
+    """public call -> dict of numpy columns, or None when it raises"""
+    _, cls = load(clspath)
+    try:
+        with _quiet():
+            s = cls(**params)
+            sol = s(np.array(pts, dtype=float), float(t))
+    except Exception:
+        return None
+    return {n: np.asarray(sol[n]) for n in sol.dtype.names}
+
+
+def _rel(a, b, floor=0.0):
+    return abs(a - b) / max(abs(a), abs(b), floor, 1e-300)
+
+
+# ---------------- EHEP ----------------------------------------------------
+
+def _ehep_region_points(rng, p, n):
+    """points with their real region labels"""
+    pts = [ehep_point(rng, p) for _ in range(n)]
+    return pts
+
+
+def _gen_ehep(rng):
+    p = ehep_params(rng)
+    x, t = ehep_point(rng, p)
+    return dict(params=p, x=x, t=t)
+
+
+def _chk_ehep_eos(c):
+    f = _call(EHEP, c['params'], [c['x']], c['t'])
+    if f is None:
+        return None
+    rho, pr, e, cs = (float(f[k][0]) for k in ('density', 'pressure', 'specific_internal_energy', 'sound_speed'))
+    if not all(map(math.isfinite, (rho, pr, e, cs))):
+        return None
+    g = c['params']['gamma']
+    if _rel(cs * cs * rho, 3.0 * pr, floor=1e-12) > TOL:
+        return _fail('EHEP:c2=3p/rho', 'region %s x=%r t=%r: c^2 rho=%r 3p=%r' % (f['region'][0], c['x'], c['t'], cs * cs * rho, 3 * pr))
+    if _rel(pr, (g - 1.0) * rho * e, floor=1e-12) > TOL:
+        return _fail('EHEP:p=(gamma-1)rho e', 'region %s: p=%r (gamma-1) rho e=%r' % (f['region'][0], pr, (g - 1) * rho * e))
+    return None
+
+
+ehep_eos = O.make(_gen_ehep, _chk_ehep_eos, 'det.ehep_eos')
+
+
+def _chk_ehep_admissible(c):
+    f = _call(EHEP, c['params'], [c['x']], c['t'])
+    if f is None:
+        return None
+    for k in ('density', 'pressure', 'specific_internal_energy', 'sound_speed'):
+        v = float(f[k][0])
+        if math.isfinite(v) and v < 0:
+            return _fail('EHEP:negative-' + k, 'region %s x=%r t=%r: %s=%r' % (f['region'][0], c['x'], c['t'], k, v))
+    return None
+
+
+ehep_admissible = O.make(_gen_ehep, _chk_ehep_admissible, 'det.ehep_admissible')
+
+
+def _ehep_fd(p, x, t, h):
+    """central differences of (rho, u, p, e) in x and t through the public call; None if the stencil leaves the region"""
+    pts = [(x, t), (x - h, t), (x + h, t), (x, t - h), (x, t + h)]
+    vals = []
+    reg = None
+    for (xx, tt) in pts:
+        f = _call(EHEP, p, [xx], tt)
+        if f is None:
+            return None
+        r = str(f['region'][0])
+        if reg is None:
+            reg = r
+        if r != reg:
+            return None
+        vals.append({k: float(f[k][0]) for k in ('density', 'velocity', 'pressure', 'specific_internal_energy', 'sound_speed')})
+    c0, xm, xp_, tm, tp = vals
+    d = {}
+    for k in c0:
+        d[k + '_x'] = (xp_[k] - xm[k]) / (2 * h)
+        d[k + '_t'] = (tp[k] - tm[k]) / (2 * h)
+    return reg, c0, d
+
+
+def _ehep_residuals(reg, v, d):
+    rho, u, pr, e = v['density'], v['velocity'], v['pressure'], v['specific_internal_energy']
+    terms_m = [d['density_t'], u * d['density_x'], rho * d['velocity_x']]
+    terms_u = [d['velocity_t'], u * d['velocity_x'], d['pressure_x'] / rho]
+    terms_e = [d['specific_internal_energy_t'], u * d['specific_internal_energy_x'], pr / rho * d['velocity_x']]
+    out = {}
+    for n, tr in (('mass', terms_m), ('momentum', terms_u), ('energy', terms_e)):
+        out[n] = abs(sum(tr)) / max(max(abs(x) for x in tr), 1e-12)
+    return out
+
+
+def _chk_ehep_pde(c):
+    p, x, t = c['params'], c['x'], c['t']
+    h = 1e-5 * max(abs(t), 1e-3)
+    r1 = _ehep_fd(p, x, t, h)
+    if r1 is None or r1[0] not in ('I', 'II', 'III', 'IV', 'V') or r1[1]['density'] <= 0:
+        return None
+    res = _ehep_residuals(*r1)
+    for n, v in res.items():
+        if v > 1e-5:
+            r2 = _ehep_fd(p, x, t, h / 2)         # truncation error drops by 4 under step halving
+            if r2 is None:
+                return None
+            v2 = _ehep_residuals(*r2)[n]
+            if v2 > 1e-5 and v2 > 0.4 * v:
+                return _fail('EHEP:' + n, 'region %s x=%r t=%r: scaled residual %.3g (h/2: %.3g)' % (r1[0], x, t, v, v2))
+    return None
+
+
+ehep_pde = O.make(_gen_ehep, _chk_ehep_pde, 'det.ehep_pde')
+
+
+def _gen_ehep_front(rng):
+    p = ehep_params(rng)
+    return dict(params=p, t=rng.uniform(0.1, 0.95) * p['xtilde'] / p['D'])
+
+
+def _chk_ehep_front(c):
+    p, t = c['params'], c['t']
+    D, rho0 = p['D'], p['rho_0']
+    # locate the front on the returned fields: last point with region 0H / first with I, by bisection in x
+    lo, hi = 0.5 * (D + 2 * p['up'] + D / 2) * t, 0.5 * (D * t + p['xtilde'])
+    f = _call(EHEP, p, [lo, hi], t)
+    if f is None or str(f['region'][0]) != 'I' or str(f['region'][1]) not in ('0H',):
+        return None
+    for _ in range(60):
+        mid = 0.5 * (lo + hi)
+        r = str(_call(EHEP, p, [mid], t)['region'][0])
+        if r == 'I':
+            lo = mid
+        else:
+            hi = mid
+    xs = 0.5 * (lo + hi)
+    # speed from the placement at neighbouring times
+    def front(tt):
+        a, b = 0.5 * (D + 2 * p['up'] + D / 2) * tt, 0.5 * (D * tt + p['xtilde'])
+        for _ in range(60):
+            m = 0.5 * (a + b)
+            if str(_call(EHEP, p, [m], tt)['region'][0]) == 'I':
+                a = m
+            else:
+                b = m
+        return 0.5 * (a + b)
+    # the closed-boundary test has an absolute tolerance (1e-12 on a sum of distances): the edge is located to ~1e-6
+    dt = 0.04 * t
+    speed = (front(t + dt) - front(t - dt)) / (2 * dt)
+    if _rel(speed, D) > 1e-4:
+        return _fail('EHEP:front-speed', 'front placed at %r, implied speed %r, D=%r' % (xs, speed, D))
+    b = _call(EHEP, p, [xs * (1 - 1e-5)], t)
+    a = _call(EHEP, p, [xs * (1 + 1e-5)], t)
+    if str(a['region'][0]) != '0H' or str(b['region'][0]) != 'I':
+        return None
+    rb, ub, pb, eb, cb = (float(b[k][0]) for k in ('density', 'velocity', 'pressure', 'specific_internal_energy', 'sound_speed'))
+    ra, ua, pa = (float(a[k][0]) for k in ('density', 'velocity', 'pressure'))
+    q = D * D / 16.0
+    mass = ra * (ua - speed) - rb * (ub - speed)
+    mom = (ra * (ua - speed) * ua + pa) - (rb * (ub - speed) * ub + pb)
+    en = ra * (ua - speed) * (q + ua * ua / 2) + pa * ua - (rb * (ub - speed) * (eb + ub * ub / 2) + pb * ub)
+    sc = rho0 * D
+    for n, v, s_ in (('mass', mass, sc), ('momentum', mom, sc * D), ('energy', en, sc * D * D)):
+        if abs(v) / s_ > 1e-4:
+            return _fail('EHEP:front-' + n, 't=%r: jump residual %r (scale %r)' % (t, v, s_))
+    if _rel(ub + cb, D) > 1e-4:
+        return _fail('EHEP:front-CJ', 'u+c=%r D=%r' % (ub + cb, D))
+    return None
+
+
+ehep_front = O.make(_gen_ehep_front, _chk_ehep_front, 'det.ehep_front')
+
+
+def _gen_ehep_sim(rng):
+    p = ehep_params(rng)
+    tt = p['xtilde'] / p['D']
+    t = rng.uniform(0.1, 0.9) * tt
+    x = rng.uniform(2 * p['up'] + p['D'] / 2, p['D']) * t
+    return dict(params=p, x=x, t=t, s=rng.uniform(0.2, 1.0))
+
+
+def _chk_ehep_sim(c):
+    p = c['params']
+    a = _call(EHEP, p, [c['x']], c['t'])
+    b = _call(EHEP, p, [c['s'] * c['x']], c['s'] * c['t'])
+    if a is None or b is None or str(a['region'][0]) != 'I' or str(b['region'][0]) != 'I':
+        return None
+    for k in ('density', 'pressure', 'specific_internal_energy', 'sound_speed', 'velocity'):
+        if _rel(float(a[k][0]), float(b[k][0]), floor=1e-12) > 1e-10:
+            return _fail('EHEP:regionI-similarity', '%s: %r at (x,t), %r at s(x,t), s=%r' % (k, a[k][0], b[k][0], c['s']))
+    return None
+
+
+similar_ehep = O.make(_gen_ehep_sim, _chk_ehep_sim, 'det.similar_ehep')
+
+
+def _gen_units(rng):
+    return dict(M=10 ** rng.uniform(-3, 3), L=10 ** rng.uniform(-3, 3), T=10 ** rng.uniform(-6, 3))
+
+
+def _gen_units_ehep(rng):
+    c = _gen_ehep(rng)
+    c.update(_gen_units(rng))
+    return c
+
+
+def _chk_units_ehep(c):
+    p, M, L, T = c['params'], c['M'], c['L'], c['T']
+    q = dict(p)
+    q.update(D=p['D'] * L / T, up=p['up'] * L / T, rho_0=p['rho_0'] * M / L ** 3, xtilde=p['xtilde'] * L,
+             xmax=p['xmax'] * L, tmax=p['tmax'] * T)
+    a = _call(EHEP, p, [c['x']], c['t'])
+    b = _call(EHEP, q, [c['x'] * L], c['t'] * T)
+    if a is None or b is None:
+        return None
+    if str(a['region'][0]) != str(b['region'][0]):
+        # points within rounding of a polygon edge may change side: only a difference that persists is reported
+        a2 = _call(EHEP, p, [c['x'] * (1 + 1e-9)], c['t'])
+        a3 = _call(EHEP, p, [c['x'] * (1 - 1e-9)], c['t'])
+        if str(a2['region'][0]) == str(a3['region'][0]) == str(a['region'][0]):
+            return _fail('EHEP:units-region', 'region %s becomes %s' % (a['region'][0], b['region'][0]))
+        return None
+    dims = dict(density=M / L ** 3, pressure=M / (L * T * T), specific_internal_energy=(L / T) ** 2,
+                sound_speed=L / T, velocity=L / T)
+    for k, s_ in dims.items():
+        if _rel(float(a[k][0]) * s_, float(b[k][0]), floor=1e-300) > 1e-9 and abs(float(a[k][0])) > 1e-14:
+            return _fail('EHEP:units', '%s: %r * %r != %r' % (k, a[k][0], s_, b[k][0]))
+    return None
+
+
+units_ehep = O.make(_gen_units_ehep, _chk_units_ehep, 'det.units_ehep')
+
+
+def _gen_ehep_gamma(rng):
+    p = ehep_params(rng)
+    p['gamma'] = rng.choice([1.4, 5.0 / 3.0, 2.0, 2.5])
+    p['up'] = min(p['up'], 0.9 * p['D'] / (p['gamma'] + 1))
+    t = rng.uniform(0.2, 0.9) * p['xtilde'] / p['D']
+    return dict(params=p, x=rng.uniform(2 * p['up'] + p['D'] / 2, p['D']) * t, t=t)
+
+
+def _chk_ehep_gamma(c):
+    """documented: gamma 'must be 3.0'.  A solver constructed with another gamma that returns finite
+    numbers is the failure (site EHEP:gamma-not-3-accepted)"""
+    f = _call(EHEP, c['params'], [c['x']], c['t'])
+    if f is None:
+        return None
+    if c['params']['gamma'] != 3.0 and math.isfinite(float(f['pressure'][0])) and float(f['density'][0]) > 0:
+        return _fail('EHEP:gamma-not-3-accepted', 'gamma=%r accepted; region %s returns rho=%r p=%r c=%r (c^2 rho / p = %r)'
+                     % (c['params']['gamma'], f['region'][0], f['density'][0], f['pressure'][0], f['sound_speed'][0],
+                        float(f['sound_speed'][0]) ** 2 * float(f['density'][0]) / float(f['pressure'][0])))
+    return None
+
+
+ehep_gamma = O.make(_gen_ehep_gamma, _chk_ehep_gamma, 'det.ehep_gamma')
+
+
+# ---------------- constructor catalogues (C20) ------------------------------
+CATALOG = {
+    EHEP: dict(base=dict(), bad=[('D', 0.0), ('D', -1.0), ('rho_0', 0.0), ('rho_0', -2.0), ('up', -1e-3), ('up', 0.85 / 4.0),
+                                 ('up', 1.0), ('xtilde', 0.0), ('xtilde', -1.0), ('xtilde', 11.0), ('tmax', 0.0), ('tmax', -1.0)],
+               good=[('up', 0.0), ('xtilde', 10.0), ('up', 0.2124)]),
+    SDRZ: dict(base=dict(), bad=[('D', 0.0), ('D', -1.0), ('rho_0', 0.0), ('rho_0', -1.0), ('gamma', 0.0), ('gamma', -1.0),
+                                 ('geometry', 2), ('geometry', 3)],
+               good=[('gamma', 1.4), ('D', 2.0)]),
+    EPP: dict(base=dict(), bad=[('G', 0.0), ('G', -1.0), ('Y', 0.0), ('Y', -0.1), ('rho0', 0.0), ('rho0', -1.0), ('up', -1e-3),
+                                ('model', 'elastic'), ('model', 'HYPO')],
+              good=[('up', 0.0), ('model', 'hypo'), ('model', 'hyperFin')]),
+}
+
+
+def _gen_catalog(rng):
+    cls = rng.choice(sorted(CATALOG))
+    kind = rng.choice(['bad', 'bad', 'good'])
+    k, v = rng.choice(CATALOG[cls][kind])
+    return dict(cls=cls, kind=kind, key=k, value=v)
+
+
+def _chk_catalog(c):
+    _, cls = load(c['cls'])
+    name = c['cls'].split(':')[1]
+    try:
+        with _quiet():
+            cls(**{c['key']: c['value']})
+        res = 'accepted'
+    except ValueError:
+        res = 'ValueError'
+    except Exception as ex:
+        res = type(ex).__name__
+    if c['kind'] == 'bad' and res != 'ValueError':
+        return _fail('%s:ctor-%s' % (name, c['key']), '%s=%r: %s (documented restriction, expected ValueError)' % (c['key'], c['value'], res))
+    if c['kind'] == 'good' and res != 'accepted':
+        return _fail('%s:ctor-%s' % (name, c['key']), '%s=%r is admissible but: %s' % (c['key'], c['value'], res))
+    return None
+
+
+ctor_catalog = O.make(_gen_catalog, _chk_catalog, 'det.ctor_catalog')
+
+
+def _gen_finite(rng):
+    k = rng.choice(['ehep', 'sdrz', 'mader', 'epp'])
+    if k == 'ehep':
+        p = ehep_params(rng)
+        pts = [ehep_point(rng, p) for _ in range(4)]
+        pts = [(x, t) for x, t in pts if 0 < t < p['tmax'] and 0 <= x < p['xmax']]
+        return dict(kind=k, params=p, pts=pts)
+    if k == 'sdrz':
+        p = sdrz_params(rng)
+        t = rng.uniform(0.05, 1.0)
+        return dict(kind=k, params=p, t=t, xs=[rng.uniform(0, 1.1) * p['D'] * t for _ in range(5)])
+    if k == 'mader':
+        p = mader_params(rng, gamma3=True)
+        t = rng.uniform(1e-6, 8e-6)
+        return dict(kind=k, params=p, t=t, n=rng.choice([7, 40, 400]))
+    p = epp_params(rng)
+    return dict(kind=k, params=p, t=rng.uniform(0.1, 2.0))
+
+
+def _chk_finite(c):
+    """valid requests inside the domain never produce NaN or infinity"""
+    k = c['kind']
+    if k == 'ehep':
+        for x, t in c['pts']:
+            f = _call(EHEP, c['params'], [x], t)
+            if f is None:
+                return _fail('EHEP:raises-inside', 'x=%r t=%r' % (x, t))
+            for n in ('density', 'pressure', 'specific_internal_energy', 'sound_speed', 'velocity'):
+                if not math.isfinite(float(f[n][0])):
+                    return _fail('EHEP:nonfinite', '%s=%r at x=%r t=%r region %s' % (n, f[n][0], x, t, f['region'][0]))
+    elif k == 'sdrz':
+        if c['params']['gamma'] <= 1.0:
+            return None
+        f = _call(SDRZ, c['params'], c['xs'], c['t'])
+        if f is None:
+            return _fail('SDRZ:raises-inside', 't=%r' % c['t'])
+        for n, col in f.items():
+            if not np.all(np.isfinite(col.astype(float))):
+                return _fail('SDRZ:nonfinite', '%s=%r' % (n, col))
+    elif k == 'mader':
+        L = c['params']['d_cj'] * c['t']
+        f = _call(MADER, c['params'], list(np.linspace(0.0, L, c['n'])), c['t'])
+        if f is None:
+            return _fail('Mader:raises-inside', 't=%r' % c['t'])
+        for n, col in f.items():
+            if not np.all(np.isfinite(col.astype(float))):
+                return _fail('Mader:nonfinite', '%s has non-finite entries (n=%d)' % (n, c['n']))
+    else:
+        try:
+            s, a = _epp_real(c['params'])
+        except Exception as ex:
+            return _fail('EPpiston:ctor-raises-inside', '%s' % type(ex).__name__)
+        for n, v in a.items():
+            if not math.isfinite(v):
+                return _fail('EPpiston:nonfinite', '%s=%r' % (n, v))
+    return None
+
+
+finite_inside = O.make(_gen_finite, _chk_finite, 'det.finite_inside')
+
+
+# ---------------- Mader -----------------------------------------------------
+
+def _gen_mader(rng):
+    p = mader_params(rng, gamma3=True)
+    t = rng.uniform(1e-6, 8e-6)
+    return dict(params=p, t=t, n=rng.choice([11, 40, 200, 1000]))
+
+
+def _mader_grid(c):
+    L = c['params']['d_cj'] * c['t']
+    x = np.linspace(0.0, L, c['n'])
+    f = _call(MADER, c['params'], list(x), c['t'])
+    return x, f
+
+
+def _chk_mader_eos(c):
+    """c^2 = gamma p / rho holds for the point profile; for the returned cell averages to O((dx/x)^2)"""
+    x, f = _mader_grid(c)
+    if f is None:
+        return None
+    g = c['params']['gamma']
+    dx = (x[-1] - x[0]) / len(x)
+    pl_u = c['params']['u_piston']
+    for i in range(len(x)):
+        u, pr, cs, rho = (float(f[k][i]) for k in ('velocity', 'pressure', 'sound_speed', 'density'))
+        if not all(map(math.isfinite, (pr, cs, rho))) or rho <= 0:
+            continue
+        err = _rel(cs * cs * rho, g * pr)
+        plateau = (u == pl_u)
+        y = cs / (g * c['params']['d_cj'] / (g + 1.0))
+        tol = 1e-9 if plateau else 5.0 * (dx / (2 * (g * c['params']['d_cj'] / (g + 1)) * c['t']) / max(y, 1e-3)) ** 2 + 1e-9
+        # the transition cell is the known C17 defect; skip it here (|xdet - xp| <= 0.1 dx)
+        xdet = float(f['xdet'][i])
+        xp = 0.5 * (g + 1.0) * c['t'] * (pl_u + c['params']['d_cj'] / (g + 1.0))
+        if abs(xdet - xp) <= 0.1 * dx * (1 + 1e-9):
+            continue
+        if err > tol:
+            return _fail('Mader:c2=gamma p/rho', 'cell %d of %d: c^2 rho=%r gamma p=%r (rel %.3g, allowed %.3g)' % (i, len(x), cs * cs * rho, g * pr, err, tol))
+    return None
+
+
+mader_eos = O.make(_gen_mader, _chk_mader_eos, 'det.mader_eos')
+
+
+def _chk_mader_between(c):
+    """every returned value lies between the plateau state and the CJ state; the fan is monotone"""
+    x, f = _mader_grid(c)
+    if f is None:
+        return None
+    p = c['params']
+    g, D = p['gamma'], p['d_cj']
+    ucj, ccj = D / (g + 1), g * D / (g + 1)
+    z = 1 + (g - 1) * (p['u_piston'] - ucj) / (2 * ccj)
+    lo = dict(velocity=min(p['u_piston'], ucj), sound_speed=min(ccj * z, ccj), pressure=min(p['p_cj'] * z ** (2 * g / (g - 1)), p['p_cj']))
+    hi = dict(velocity=max(p['u_piston'], ucj), sound_speed=max(ccj * z, ccj), pressure=max(p['p_cj'] * z ** (2 * g / (g - 1)), p['p_cj']))
+    dx = (x[-1] - x[0]) / len(x)
+    xp = 0.5 * (g + 1.0) * c['t'] * (p['u_piston'] + D / (g + 1.0))
+    for i in range(len(x)):
+        xdet = float(f['xdet'][i])
+        if xdet + 0.5 * dx > D * c['t']:          # the cell reaches beyond the front
+            continue
+        for k in lo:
+            v = float(f[k][i])
+            if v < lo[k] * (1 - 1e-9) - 1e-9 * abs(hi[k]) or v > hi[k] * (1 + 1e-9):
+                site = 'Mader:transition-cell' if abs(xdet - xp) <= 0.1 * dx * (1 + 1e-9) else 'Mader:fan-out-of-range'
+                return _fail(site, 'cell %d of %d (xlab=%r, t=%r): %s=%r outside [%r, %r] spanned by the plateau and CJ states'
+                             % (i, len(x), x[i], c['t'], k, v, lo[k], hi[k]))
+    return None
+
+
+mader_between = O.make(_gen_mader, _chk_mader_between, 'det.mader_between')
+
+
+def _chk_mader_monotone(c):
+    x, f = _mader_grid(c)
+    if f is None:
+        return None
+    p = c['params']
+    g, D = p['gamma'], p['d_cj']
+    dx = (x[-1] - x[0]) / len(x)
+    xp = 0.5 * (g + 1.0) * c['t'] * (p['u_piston'] + D / (g + 1.0))
+    fan = [i for i in range(len(x)) if float(f['xdet'][i]) - xp > 0.1 * dx * (1 + 1e-6)]
+    for a, b in zip(fan, fan[1:]):          # xlab increases, xdet decreases: values must not increase
+        for k in ('velocity', 'pressure', 'sound_speed', 'density'):
+            if float(f[k][b]) > float(f[k][a]) * (1 + 1e-12):
+                return _fail('Mader:fan-monotone', '%s increases from cell %d to %d (%r -> %r)' % (k, a, b, f[k][a], f[k][b]))
+    return None
+
+
+mader_monotone = O.make(_gen_mader, _chk_mader_monotone, 'det.mader_monotone')
+
+
+def _gen_mader_g(rng):
+    p = mader_params(rng)
+    p['gamma'] = rng.choice([3.0, 1.4, 2.0, 5.0 / 3.0])
+    return dict(params=p, t=rng.uniform(1e-6, 8e-6), n=rng.choice([401, 2001]))
+
+
+def _chk_mader_cj(c):
+    """the head of the returned fan is the CJ state: u -> D/(gamma+1), c -> gamma D/(gamma+1), u + c -> D,
+    p -> p_cj as the cell at the front shrinks"""
+    x, f = _mader_grid(c)
+    if f is None:
+        return None
+    p = c['params']
+    g, D = p['gamma'], p['d_cj']
+    i = 1
+    u, cs, pr = float(f['velocity'][i]), float(f['sound_speed'][i]), float(f['pressure'][i])
+    res = 4.0 / c['n']
+    if _rel(u + cs, D) > res or _rel(pr, p['p_cj']) > 4 * res:
+        site = 'Mader:fan-head-gamma' if g != 3.0 else 'Mader:fan-head'
+        return _fail(site, 'gamma=%r: next to the front u+c=%r (D=%r), c=%r (c_cj=%r), p=%r (p_cj=%r)'
+                     % (g, u + cs, D, cs, g * D / (g + 1), pr, p['p_cj']))
+    return None
+
+
+mader_cj = O.make(_gen_mader_g, _chk_mader_cj, 'det.mader_cj')
+
+
+def _gen_mader_sim(rng):
+    c = _gen_mader(rng)
+    c['s'] = rng.uniform(0.3, 3.0)
+    c.update(_gen_units(rng))
+    return c
+
+
+def _chk_mader_sim(c):
+    """same grid in x/t at time s t (cell width scales with t): same values"""
+    x, a = _mader_grid(c)
+    c2 = dict(c)
+    c2['t'] = c['t'] * c['s']
+    x2, b = _mader_grid(c2)
+    if a is None or b is None:
+        return None
+    for k in ('velocity', 'pressure', 'sound_speed', 'density'):
+        for i in range(len(x)):
+            va, vb = float(a[k][i]), float(b[k][i])
+            if math.isfinite(va) and math.isfinite(vb) and _rel(va, vb, floor=1e-9 * abs(c['params']['d_cj'])) > 1e-7:
+                return _fail('Mader:similarity', '%s cell %d: %r at t, %r at s t (s=%r)' % (k, i, va, vb, c['s']))
+    return None
+
+
+similar_mader = O.make(_gen_mader_sim, _chk_mader_sim, 'det.similar_mader')
+
+
+def _chk_units_mader(c):
+    p, M, L, T = c['params'], c['M'], c['L'], c['T']
+    q = dict(p_cj=p['p_cj'] * M / (L * T * T), d_cj=p['d_cj'] * L / T, gamma=p['gamma'], u_piston=p['u_piston'] * L / T)
+    x, a = _mader_grid(c)
+    b = _call(MADER, q, list(x * L), c['t'] * T)
+    if a is None or b is None:
+        return None
+    dims = dict(velocity=L / T, pressure=M / (L * T * T), sound_speed=L / T, density=M / L ** 3, xdet=L)
+    for k, s_ in dims.items():
+        for i in range(len(x)):
+            va, vb = float(a[k][i]) * s_, float(b[k][i])
+            floor = 1e-9 * abs(p['d_cj'] * L / T) if k == 'velocity' else (1e-6 * abs(p['d_cj'] * c['t'] * L) if k == 'xdet' else 0.0)
+            if math.isfinite(va) and math.isfinite(vb) and _rel(va, vb, floor=floor) > 1e-7:
+                return _fail('Mader:units', '%s cell %d: %r (scaled) vs %r' % (k, i, va, vb))
+    return None
+
+
+units_mader = O.make(_gen_mader_sim, _chk_units_mader, 'det.units_mader')
+
+
+# ---------------- SDRZ ------------------------------------------------------
+
+def _gen_sdrz(rng):
+    p = sdrz_params(rng)
+    return dict(params=p, t=rng.uniform(0.05, 1.0), n=rng.choice([21, 201]))
+
+
+def _sdrz_profile(c):
+    _, cls = load(SDRZ)
+    with _quiet():
+        s = cls(**c['params'])
+        return s.run_tvec(np.linspace(0.0, c['t'], c['n']))
+
+
+def _chk_sdrz_steady(c):
+    sol = _sdrz_profile(c)
+    p = c['params']
+    D, r0 = p['D'], p['rho_0']
+    for i in range(len(sol['pressure'])):
+        rho, u, pr = float(sol['density'][i]), float(sol['velocity'][i]), float(sol['pressure'][i])
+        if _rel(rho * (D - u), r0 * D) > TOL:
+            return _fail('SDRZ:mass-flux', 'lambda=%r: rho (D-u)=%r rho0 D=%r' % (sol['reaction_progress'][i], rho * (D - u), r0 * D))
+        if _rel(pr + rho * (D - u) ** 2, r0 * D * D) > TOL or _rel(pr, r0 * D * u) > TOL:
+            return _fail('SDRZ:momentum-flux', 'lambda=%r: p + rho (D-u)^2=%r rho0 D^2=%r' % (sol['reaction_progress'][i], pr + rho * (D - u) ** 2, r0 * D * D))
+    # through the public call as well (interpolated back to x: linear interpolation error O(dt^2))
+    xs = [p['D'] * c['t'] * k / 7.0 for k in range(1, 7)]
+    f = _call(SDRZ, p, xs, c['t'])
+    if f is not None:
+        for i in range(len(xs)):
+            rho, u, pr = float(f['density'][i]), float(f['velocity'][i]), float(f['pressure'][i])
+            if rho == r0 and u == 0:
+                continue
+            if _rel(pr, r0 * D * u) > 1e-9 + 4.0 / c['n'] ** 2:
+                return _fail('SDRZ:momentum-flux', 'public call x=%r: p=%r rho0 D u=%r' % (xs[i], pr, r0 * D * u))
+    return None
+
+
+sdrz_steady = O.make(_gen_sdrz, _chk_sdrz_steady, 'det.sdrz_steady')
+
+
+def _chk_sdrz_dxdt(c):
+    """dx/dt = D - u for the coded x(t): central differences of position_relative on the time grid"""
+    sol = _sdrz_profile(dict(c, n=2001))
+    tv = np.linspace(0.0, c['t'], 2001)
+    xr = np.asarray(sol['position_relative'], dtype=float)
+    u = np.asarray(sol['velocity'], dtype=float)
+    D = c['params']['D']
+    for i in range(1, 2000, 97):
+        d = (xr[i + 1] - xr[i - 1]) / (tv[i + 1] - tv[i - 1])
+        if _rel(d, D - u[i]) > 1e-6:
+            return _fail('SDRZ:dxdt', 't=%r: dx/dt=%r D-u=%r' % (tv[i], d, D - u[i]))
+    return None
+
+
+sdrz_dxdt = O.make(_gen_sdrz, _chk_sdrz_dxdt, 'det.sdrz_dxdt')
+
+
+def _gen_sdrz_tail(rng):
+    p = sdrz_params(rng)
+    return dict(params=p, t=rng.choice([1.2, rng.uniform(1.05, 2.5)]), n=201)
+
+
+def _chk_sdrz_tail(c):
+    """behind the reaction zone the documented x(t) = x(1) + (t-1)(D - u(1)); the public call's grid
+    (201 points on [0, t]) does not contain t = 1 in general"""
+    p = c['params']
+    f = _call(SDRZ, p, [0.0], c['t'])
+    if f is None:
+        return None
+    g, D, r0 = p['gamma'], p['D'], p['rho_0']
+    rhoj = r0 * (g + 1) / g
+    x1 = r0 * D / rhoj * ((1 - 1 / g) + 1 / (2 * g))
+    u1 = D / (g + 1)
+    want = x1 + (c['t'] - 1.0) * (D - u1)
+    got = float(f['position_relative'][0])
+    if _rel(got, want) > 0.02:
+        return _fail('SDRZ:x_rel-after-reaction', 't=%r, x=0 (particle age > 1): position_relative=%r, documented '
+                     'x(1)+(t-1)(D-u(1))=%r (xvec_rel[it1] is read before it is assigned)' % (c['t'], got, want))
+    return None
+
+
+sdrz_tail = O.make(_gen_sdrz_tail, _chk_sdrz_tail, 'det.sdrz_tail')
+
+
+def _chk_sdrz_eos(c):
+    sol = _sdrz_profile(c)
+    g = c['params']['gamma']
+    for i in range(len(sol['pressure'])):
+        cs, pr, rho = float(sol['sound_speed'][i]), float(sol['pressure'][i]), float(sol['density'][i])
+        if _rel(cs * cs, g * pr / rho) > TOL:
+            return _fail('SDRZ:cs2=gamma p/rho', 'cs^2=%r gamma p/rho=%r' % (cs * cs, g * pr / rho))
+    f = _call(SDRZ, c['params'], [c['params']['D'] * c['t'] * k / 9.0 for k in range(1, 9)], c['t'])
+    if f is not None:
+        for i in range(8):
+            cs, pr, rho = float(f['sound_speed'][i]), float(f['pressure'][i]), float(f['density'][i])
+            if pr == 0:
+                continue
+            if _rel(cs * cs, g * pr / rho) > 1e-9 + 4.0 / c['n'] ** 2:
+                return _fail('SDRZ:cs2=gamma p/rho', 'public call: cs^2=%r gamma p/rho=%r' % (cs * cs, g * pr / rho))
+    return None
+
+
+sdrz_eos = O.make(_gen_sdrz, _chk_sdrz_eos, 'det.sdrz_eos')
+
+
+def _chk_sdrz_monotone(c):
+    if c['params']['gamma'] <= 1:
+        return None
+    sol = _sdrz_profile(c)
+    lam = np.asarray(sol['reaction_progress'], dtype=float)
+    for k in ('pressure', 'density', 'velocity'):
+        col = np.asarray(sol[k], dtype=float)
+        if np.any(col <= 0):
+            return _fail('SDRZ:positive', '%s has non-positive entries' % k)
+        if np.any(np.diff(col) > 1e-13 * abs(col[0])):
+            return _fail('SDRZ:monotone', '%s is not non-increasing in lambda' % k)
+    if np.any(np.diff(lam) < 0) or lam[0] < 0 or lam[-1] > 1:
+        return _fail('SDRZ:lambda', 'reaction progress not monotone in [0,1]')
+    return None
+
+
+sdrz_monotone = O.make(_gen_sdrz, _chk_sdrz_monotone, 'det.sdrz_monotone')
+
+
+# ---------------- EP piston ---------------------------------------------------
+
+def _gen_epp(rng):
+    return dict(params=epp_params(rng), t=rng.uniform(0.2, 2.0))
+
+
+def _grun(p, rho, e):
+    eta = 1.0 - p['rho0'] / rho
+    Ph = p['rho0'] * p['c0'] ** 2 * eta / (1.0 - p['s0'] * eta) ** 2
+    Eh = eta * Ph / (2.0 * p['rho0'])
+    return Ph + p['gamma'] * rho * (e - Eh)
+
+
+def _epp_states(c):
+    """the three states through the public call: behind the plastic wave, between the waves, ahead"""
+    p, t = c['params'], c['t']
+    try:
+        s, a = _epp_real(p)
+    except Exception:
+        return None
+    xpl, xel = a['wv_pl'] * t, a['wv_el'] * t
+    xs = [0.5 * xpl, 0.5 * (xpl + xel), 1.5 * xel, 2.0 * xel]
+    f = _call(EPP, p, xs, t)
+    if f is None:
+        return None
+    st = []
+    for i in range(3):
+        st.append(dict(rho=float(f['density'][i]), u=float(f['velocity'][i]), p=float(f['pressure'][i]),
+                       e=float(f['specific_internal_energy'][i]), s=float(f['deviatoric stress'][i])))
+    # wave speeds from the placement at two times (bisection on the returned density)
+    def locate(tt, lo, hi, left):
+        for _ in range(60):
+            m = 0.5 * (lo + hi)
+            r = float(_call(EPP, p, [m, 4 * a['wv_el'] * tt], tt)['density'][0])
+            if r == left:
+                lo = m
+            else:
+                hi = m
+        return 0.5 * (lo + hi)
+    dt = 0.05 * t
+    Wpl = (locate(t + dt, 0.0, 0.5 * (xpl + xel) * (1 + dt / t), st[0]['rho']) - locate(t - dt, 0.0, 0.5 * (xpl + xel) * (1 - dt / t), st[0]['rho'])) / (2 * dt)
+    Wel = (locate(t + dt, 0.5 * (xpl + xel) * (1 + dt / t), 2 * xel, st[1]['rho']) - locate(t - dt, 0.5 * (xpl + xel) * (1 - dt / t), 2 * xel, st[1]['rho'])) / (2 * dt)
+    return st, Wpl, Wel, a
+
+
+def _chk_epp_jumps(c):
+    r = _epp_states(c)
+    if r is None:
+        return None
+    st, Wpl, Wel, a = r
+    if _rel(Wpl, a['wv_pl']) > 1e-8 or _rel(Wel, a['wv_el']) > 1e-8:
+        return _fail('EPpiston:placement', 'implied speeds %r %r, attributes %r %r' % (Wpl, Wel, a['wv_pl'], a['wv_el']))
+    for name, (A, B, W) in (('plastic', (st[0], st[1], Wpl)), ('elastic', (st[1], st[2], Wel))):
+        def flux(S):
+            m = S['rho'] * (S['u'] - W)
+            sig = S['p'] - S['s']
+            return m, m * S['u'] + sig, m * (S['e'] + S['u'] ** 2 / 2) + sig * S['u']
+        fa, fb = flux(A), flux(B)
+        m = abs(fb[0])
+        scales = (m, max(abs(A['p'] - A['s']), m * abs(W)), max(abs(A['p'] - A['s']) * abs(A['u']), 1e-300))
+        for k, nm in enumerate(('mass', 'momentum', 'energy')):
+            if abs(fa[k] - fb[k]) / scales[k] > 1e-7:
+                return _fail('EPpiston:%s-%s' % (name, nm), 'model=%s: flux %r vs %r' % (c['params']['model'], fa[k], fb[k]))
+    return None
+
+
+epp_jumps = O.make(_gen_epp, _chk_epp_jumps, 'det.epp_jumps')
+
+
+def _chk_epp_eos(c):
+    r = _epp_states(c)
+    if r is None:
+        return None
+    st = r[0]
+    p = c['params']
+    for nm, S in (('p2', st[0]), ('p_y', st[1])):
+        want = _grun(p, S['rho'], S['e'])
+        if _rel(S['p'], want) > 1e-7:
+            return _fail('EPpiston:%s=Gruneisen' % nm, 'model=%s: p=%r Gruneisen(rho,e)=%r' % (p['model'], S['p'], want))
+    if st[2]['p'] != 0 or st[2]['e'] != 0 or st[2]['rho'] != p['rho0']:
+        return _fail('EPpiston:undisturbed', repr(st[2]))
+    return None
+
+
+epp_eos = O.make(_gen_epp, _chk_epp_eos, 'det.epp_eos')
+
+
+def _chk_epp_compressive(c):
+    r = _epp_states(c)
+    if r is None:
+        return None
+    st, _, _, a = r
+    p = c['params']
+    if not (st[0]['rho'] > st[1]['rho'] > st[2]['rho'] > 0):
+        if a['vel_y'] >= p['up']:
+            return None      # no plastic wave: outside the problem (reported under C20)
+        return _fail('EPpiston:compressive', 'rho2=%r rho_y=%r rho0=%r' % (st[0]['rho'], st[1]['rho'], st[2]['rho']))
+    if not (st[0]['p'] - st[0]['s'] > st[1]['p'] - st[1]['s'] > 0):
+        if a['vel_y'] >= p['up']:
+            return None
+        return _fail('EPpiston:stress-rises', 'sigma2=%r sigma_y=%r' % (st[0]['p'] - st[0]['s'], st[1]['p'] - st[1]['s']))
+    return None
+
+
+epp_compressive = O.make(_gen_epp, _chk_epp_compressive, 'det.epp_compressive')
+
+
+def _gen_units_epp(rng):
+    c = _gen_epp(rng)
+    c.update(_gen_units(rng))
+    return c
+
+
+def _chk_units_epp(c):
+    p, M, L, T = c['params'], c['M'], c['L'], c['T']
+    pr, rh, v = M / (L * T * T), M / L ** 3, L / T
+    q = dict(p, G=p['G'] * pr, Y=p['Y'] * pr, rho0=p['rho0'] * rh, c0=p['c0'] * v, up=p['up'] * v)
+    try:
+        s, a = _epp_real(p)
+        s2, b = _epp_real(q)
+    except Exception:
+        return None
+    dims = dict(sdev_y=pr, rho_y=rh, e_y=v * v, p_y=pr, wv_el=v, vel_y=v, wv_pl=v, p2=pr, rho2=rh, e2=v * v)
+    for k, s_ in dims.items():
+        if _rel(a[k] * s_, b[k]) > 1e-6:
+            return _fail('EPpiston:units', 'model=%s %s: %r (scaled) vs %r' % (p['model'], k, a[k] * s_, b[k]))
+    t = c['t']
+    xs = [0.3 * a['wv_pl'] * t, 0.5 * (a['wv_pl'] + a['wv_el']) * t, 1.3 * a['wv_el'] * t, 2 * a['wv_el'] * t]
+    f = _call(EPP, p, xs, t)
+    g_ = _call(EPP, q, [x * L for x in xs], t * T)
+    if f is None or g_ is None:
+        return None
+    fd = {'density': rh, 'pressure': pr, 'specific_internal_energy': v * v, 'velocity': v, 'deviatoric stress': pr}
+    for k, s_ in fd.items():
+        for i in range(3):
+            if _rel(float(f[k][i]) * s_, float(g_[k][i])) > 1e-6 and abs(float(f[k][i])) > 0:
+                return _fail('EPpiston:units', 'field %s point %d' % (k, i))
+    return None
+
+
+units_epp = O.make(_gen_units_epp, _chk_units_epp, 'det.units_epp')
+
+
+# ---------------- additional ties / oracle variants --------------------------
+
+def tie_ehep_on_line(rng, deep):
+    """Float twin of `EHEPOnLine` vs the real `point_on_line` (incl. points on and next to the edge)"""
+    _, cls = load(EHEP)
+    s = cls()
+    st = _stats()
+    n = 400 if deep else 100
+    cases, real = [], []
+    for i in range(n):
+        ax, at, bx, bt = (rng.uniform(-2, 2) for _ in range(4))
+        sc = 10 ** rng.uniform(-7, 1)
+        at, bt = at * sc, bt * sc
+        lam = rng.uniform(-0.2, 1.2)
+        x, t = ax + lam * (bx - ax), at + lam * (bt - at)
+        k = i % 4
+        if k == 1:
+            t += rng.uniform(-1, 1) * 10 ** rng.uniform(-9, -4)
+        elif k == 2:
+            x += rng.uniform(-1, 1) * 10 ** rng.uniform(-9, -4)
+        elif k == 3:
+            x, t = rng.uniform(-2, 2), rng.uniform(-2, 2) * sc
+        tol = rng.choice([1e-12, 1e-5])
+        r = bool(s.point_on_line(((ax, at), (bx, bt)), (x, t), tol))
+        cases.append(dict(at=at, ax=ax, bt=bt, bx=bx, tol=tol, x=x, t=t))
+        real.append(r)
+    for (mtag, mf), r, c in zip(twin('EHEPOnLine', cases), real, cases):
+        st['evaluations'] += 1
+        _note(st, mtag)
+        st['distinct_nontrivial'] += 1
+        if (mf['on_line'] == 1.0) != r:
+            # math.hypot is correctly rounded, sqrt(x*x+y*y) is not: a disagreement only counts away from the threshold
+            d = math.hypot(c['ax'] - c['x'], c['at'] - c['t']) + math.hypot(c['bx'] - c['x'], c['bt'] - c['t']) \
+                - math.hypot(c['ax'] - c['bx'], c['at'] - c['bt'])
+            if abs(abs(d) - c['tol']) > 1e-3 * c['tol'] + 4e-16:
+                st['mismatches'].append(dict(model='EHEPOnLine', case=c, why='model %r code %r' % (mf['on_line'], r)))
+        if len(st['samples']) < 1:
+            st['samples'].append(dict(model='EHEPOnLine', case=c, outcome=mtag))
+    return st
+
+
+def _chk_units_ehep_fields(c):
+    """C08 for the fields: compared only where the polygon test gives the same region for the re-expressed
+    point (the region test itself is the finding C08.ehep.region_test)"""
+    r = _chk_units_ehep(c)
+    if r is not None and r['site'] == 'EHEP:units-region':
+        return None
+    return r
+
+
+units_ehep_fields = O.make(_gen_units_ehep, _chk_units_ehep_fields, 'det.units_ehep_fields')
+
+
+def _gen_units_ehep_time(rng):
+    """the re-expression that exposes the region test: time in seconds instead of microseconds"""
+    c = _gen_ehep(rng)
+    c.update(M=1.0, L=1.0, T=rng.choice([1e-6, 1e-6, 1e-3, 1e3]))
+    return c
+
+
+def _chk_units_region(c):
+    r = _chk_units_ehep(c)
+    if r is not None and r['site'] != 'EHEP:units-region':
+        return None
+    return r
+
+
+units_ehep_region = O.make(_gen_units_ehep_time, _chk_units_region, 'det.units_ehep_region')
+
+
+def _gen_mader3(rng):
+    p = mader_params(rng, gamma3=True)
+    return dict(params=p, t=rng.uniform(1e-6, 8e-6), n=rng.choice([401, 2001]))
+
+
+mader_cj3 = O.make(_gen_mader3, _chk_mader_cj, 'det.mader_cj3')
+
+
+def _chk_mader_between_fan(c):
+    r = _chk_mader_between(c)
+    if r is not None and r['site'] == 'Mader:transition-cell':
+        return None
+    return r
+
+
+mader_between_fan = O.make(_gen_mader, _chk_mader_between_fan, 'det.mader_between_fan')
+
+
+def _chk_mader_transition(c):
+    r = _chk_mader_between(c)
+    if r is not None and r['site'] != 'Mader:transition-cell':
+        return None
+    return r
+
+
+def _gen_mader_tr(rng):
+    # the documented configuration first: 11 cells on [0, 5] at t = 6.25e-6 puts a cell centre on the tail
+    if rng.random() < 0.3:
+        return dict(params=dict(p_cj=3.0e11, d_cj=8.0e5, gamma=3.0, u_piston=0.0), t=6.25e-6, n=11)
+    return _gen_mader(rng)
+
+
+mader_transition = O.make(_gen_mader_tr, _chk_mader_transition, 'det.mader_transition')
+
+
+# ---------------- ties of the hand models ------------------------------------
+
+def _ehep_boundary_point(rng, s):
+    """a point on (or within rounding of) an edge or a corner of one of the polygons"""
+    name = rng.choice(sorted(s.corners))
+    poly = s.corners[name]
+    i = rng.randrange(len(poly))
+    a, b = poly[i], poly[(i + 1) % len(poly)]
+    lam = rng.choice([0.0, 1.0, 0.5, rng.random(), rng.uniform(-0.1, 1.1)])
+    x, t = a[0] + lam * (b[0] - a[0]), a[1] + lam * (b[1] - a[1])
+    k = rng.random()
+    if k < 0.3:
+        x = x * (1 + rng.choice([-1, 1]) * 10 ** rng.uniform(-16, -9))
+    elif k < 0.5:
+        t = t * (1 + rng.choice([-1, 1]) * 10 ** rng.uniform(-16, -9))
+    return float(x), float(t)
+
+
+def tie_ehep_region(rng, deep):
+    """hand model EPV/Model/EHEP.lean vs the real region selection: `region` (exact mirror of matplotlib's crossings test
+    and of point_on_boundary) on random, edge and corner points; `regionHP` (half-planes) wherever the point is farther
+    from every edge than the closed-boundary tolerance"""
+    _, cls = load(EHEP)
+    st = _stats()
+    n = 700 if deep else 160
+    lines, real = [], []
+    for i in range(n):
+        p = ehep_params(rng)
+        if i % 5 == 4:
+            p = dict(D=0.85, rho_0=1.6, up=0.05, xtilde=1.0, xmax=10.0, tmax=10.0, gamma=3.0)
+        s = cls(**p)
+        x, t = _ehep_boundary_point(rng, s) if i % 2 else ehep_point(rng, p)
+        with _quiet():
+            reg = s(np.array([x]), t)['region'][0]
+        real.append((EHEP_CODE[str(reg)], p, x, t))
+        lines.append('ehep_region ' + ' '.join(lean_io.bits(v) for v in (p['D'], p['up'], p['xtilde'], p['xmax'], p['tmax'], x, t)))
+    outs = lean_io.run_lines(lines)
+    for line, (code, p, x, t) in zip(outs, real):
+        st['evaluations'] += 1
+        w = line.split()
+        if w[0] != 'region':
+            st['mismatches'].append(dict(model='ehep_region', why='driver said %r' % line))
+            continue
+        exact, hp, excess = int(w[1]), int(w[2]), lean_io.unbits(w[3])
+        _note(st, 'region %d' % code)
+        near = excess < 4e-12          # inside the closed-boundary band (or within rounding of its threshold 1e-12)
+        if exact != code:
+            # sqrt(dx^2+dt^2) vs the correctly rounded math.hypot can only matter at the threshold of the band
+            if not (0.25e-12 < excess < 4e-12):
+                st['mismatches'].append(dict(model='ehep_region', params=p, x=x, t=t, why='mirror model %d, code %d (edge excess %.3g)' % (exact, code, excess)))
+        if not near:
+            st['distinct_nontrivial'] += 1
+            if hp != code:
+                st['mismatches'].append(dict(model='ehep_region', params=p, x=x, t=t, why='half-plane model %d, code %d (edge excess %.3g)' % (hp, code, excess)))
+        if len(st['samples']) < 2:
+            st['samples'].append(dict(model='ehep_region', params=p, x=x, t=t, outcome=line))
+    return st
+
+
+def tie_mader_cells(rng, deep):
+    """hand model EPV/Model/Mader.lean (cell loop, dx from the batch, t <= 0 -> NaN) vs the public call"""
+    st = _stats()
+    n = 60 if deep else 16
+    lines, real = [], []
+    for i in range(n):
+        p = mader_params(rng)
+        t = rng.choice([0.0, -1e-6]) if i % 8 == 7 else rng.uniform(1e-6, 8e-6)
+        m = rng.choice([2, 5, 11, 40])
+        L = p['d_cj'] * abs(t) if t != 0 else 5.0
+        xs = sorted(rng.uniform(0, L) for _ in range(m)) if i % 3 else list(np.linspace(0, L, m))
+        f = _call(MADER, p, xs, t)
+        real.append((f, p, t, xs))
+        lines.append('mader_cells ' + ' '.join(lean_io.bits(v) for v in [t, p['p_cj'], p['d_cj'], p['gamma'], p['u_piston']] + list(xs)))
+    names = ['velocity', 'pressure', 'sound_speed', 'density', 'xdet']
+    for line, (f, p, t, xs) in zip(lean_io.run_lines(lines), real):
+        st['evaluations'] += 1
+        w = line.split()
+        bad = None
+        if w[0] != 'cells' or f is None:
+            bad = 'driver %r / code %r' % (line[:60], None if f is None else 'ok')
+        else:
+            k = 1
+            for i in range(len(xs)):
+                tag = w[k]
+                k += 1
+                if tag.startswith('nan'):
+                    if not all(math.isnan(float(f[nm][i])) for nm in names):
+                        bad = 'model NaN (t <= 0), code finite'
+                    continue
+                vals = [lean_io.unbits(v) for v in w[k:k + 5]]
+                k += 5
+                for nm, v in zip(names, vals):
+                    if not close(float(f[nm][i]), v, rtol=1e-9):
+                        bad = 'point %d %s: code %r model %r' % (i, nm, float(f[nm][i]), v)
+                if float(f['position'][i]) != xs[i]:
+                    bad = 'position not returned unchanged'
+            st['distinct_nontrivial'] += 1
+        if bad:
+            st['mismatches'].append(dict(model='mader_cells', params=p, t=t, xs=xs, why=bad))
+        if len(st['samples']) < 1:
+            st['samples'].append(dict(model='mader_cells', params=p, t=t, xs=xs, outcome=line[:80]))
+    return st
+
+
+def tie_sdrz_interp(rng, deep):
+    """hand model EPV/Model/SDRZ.lean (time grid, profile, masks, interp1d) vs the public call, t <= 1"""
+    _, cls = load(SDRZ)
+    st = _stats()
+    n = 40 if deep else 10
+    lines, real = [], []
+    names = ['pressure', 'velocity', 'density', 'sound_speed', 'reaction_progress', 'position_relative']
+    for i in range(n):
+        p = sdrz_params(rng)
+        t = rng.choice([1.0, 0.5, rng.uniform(0.05, 1.0)])
+        s = cls(**p)
+        xs = [rng.uniform(-0.1, 1.15) * p['D'] * t for _ in range(7)] + [p['D'] * t, 0.0]
+        with _quiet():
+            sol = s(np.array(xs), t)
+        real.append(({nm: [float(v) for v in sol[nm]] for nm in names}, p, t, xs))
+        lines.append('sdrz_interp ' + ' '.join(lean_io.bits(v) for v in [p['D'], p['gamma'], p['rho_0'], t, 201.0] + xs))
+    for line, (f, p, t, xs) in zip(lean_io.run_lines(lines), real):
+        w = line.split()
+        bad = None
+        if w[0] != 'interp' or len(w) != 1 + 6 * len(xs):
+            bad = 'driver said %r' % line[:80]
+        else:
+            for i in range(len(xs)):
+                st['evaluations'] += 1
+                st['distinct_nontrivial'] += 1
+                vals = [lean_io.unbits(v) for v in w[1 + 6 * i:7 + 6 * i]]
+                for nm, v in zip(names, vals):
+                    if not close(f[nm][i], v, rtol=1e-10, atol=1e-13):
+                        bad = 'x=%r %s: code %r model %r' % (xs[i], nm, f[nm][i], v)
+        if bad:
+            st['mismatches'].append(dict(model='sdrz_interp', params=p, t=t, why=bad))
+        if len(st['samples']) < 1:
+            st['samples'].append(dict(model='sdrz_interp', params=p, t=t, xs=xs, outcome=line[:80]))
+    return st
+
+
+def _gen_epp_weak(rng):
+    p = epp_params(rng)
+    p['up'] = rng.choice([0.0, 1e-4, 1e-3, rng.uniform(0.0, 0.002)])
+    return dict(params=p, t=rng.uniform(0.2, 2.0))
+
+
+def _chk_epp_weak(c):
+    """every documented-admissible piston velocity (up >= 0) must give compressive waves"""
+    try:
+        s, a = _epp_real(c['params'])
+    except Exception:
+        return None
+    p = c['params']
+    if a['rho2'] < a['rho_y'] or a['p2'] - a['sdev_y'] < a['p_y'] - a['sdev_y']:
+        site = 'EPpiston:weak-piston' if p['up'] < a['vel_y'] else 'EPpiston:compressive'
+        return _fail(site, 'model=%s up=%r (vel_y=%r): rho2=%r < rho_y=%r, p2=%r, p_y=%r'
+                     % (p['model'], p['up'], a['vel_y'], a['rho2'], a['rho_y'], a['p2'], a['p_y']))
+    return None
+
+
+epp_weak_piston = O.make(_gen_epp_weak, _chk_epp_weak, 'det.epp_weak_piston')
+
+
+def _gen_ehep_outside(rng):
+    p = ehep_params(rng)
+    k = rng.choice(['t>tmax', 't=0', 't<0', 'x>xmax'])
+    if k == 't>tmax':
+        x, t = rng.uniform(0.3, 0.9) * (2 * p['up'] + p['D'] / 2) * p['tmax'], p['tmax'] * rng.uniform(1.01, 2.0)
+    elif k == 't=0':
+        x, t = rng.uniform(0.05, 0.95) * p['xtilde'], 0.0
+    elif k == 't<0':
+        x, t = rng.uniform(0.05, 0.95) * p['xtilde'], -rng.uniform(0.1, 1.0)
+    else:
+        x, t = p['xmax'] * rng.uniform(1.01, 2.0), rng.uniform(0.1, 0.9) * p['tmax']
+    return dict(params=p, x=x, t=t, kind=k)
+
+
+def _chk_ehep_outside(c):
+    """outside the x-t window the solver must raise or return NaN, not finite numbers"""
+    f = _call(EHEP, c['params'], [c['x']], c['t'])
+    if f is None:
+        return None
+    vals = [float(f[k][0]) for k in ('density', 'pressure', 'velocity', 'sound_speed')]
+    if all(math.isfinite(v) for v in vals):
+        return _fail('EHEP:outside-window-zeros', '%s: x=%r t=%r (xmax=%r tmax=%r): region %s, rho=%r p=%r u=%r'
+                     % (c['kind'], c['x'], c['t'], c['params']['xmax'], c['params']['tmax'], f['region'][0], vals[0], vals[1], vals[2]))
+    return None
+
+
+ehep_outside = O.make(_gen_ehep_outside, _chk_ehep_outside, 'det.ehep_outside')
